@@ -25,6 +25,8 @@ func runC07(p *eng.Prog, r *eng.Report, tier string) {
 	// C07.19 (= C09.17 / C10.10): no cycle in the lock-order graph: a deadlock between a
 	// writer and Close, or between the serve loop and a requester, ends every guarantee of this property
 	lockOrder(c, "C07.19")
+	c07HandlerEOFIsAFailure(c, "C07.21")
+	c07IDsComparedAsWritten(c, "C07.22")
 	// C07.20 (= C05.2 / C10.6): the writer the automatic reply goes through releases the output lock exactly
 	// once, on Close; nothing else sets its "released" marker (a latched write error would leak the lock and
 	// the next unanswered request would never get its reply)
@@ -702,4 +704,108 @@ func depthCountersDoNotWrap(c *cx, id string) {
 		}
 	}
 	c.r.Floor(id, "nesting / list counters found", n, 4)
+}
+
+// c07HandlerEOFIsAFailure (C07.21 / C08.24): Serve takes io.EOF from
+// handleInputStream for "the peer closed its stream" and returns nil. Only the
+// session's own reader may say so: an io.EOF that a handler returns (the
+// multiplexer returns the EOF of its view of an IQ without payload) is a
+// failed handler - the request is unanswered - and must end the session with
+// an error. From the non-nil edge of the handler's error, every return of
+// handleInputStream lies behind the edge that excludes io.EOF, or returns
+// something else than the handler's error; a conversion that depends on one
+// more flag lets a bare io.EOF through.
+func c07HandlerEOFIsAFailure(c *cx, id string) {
+	f := c.fn(id, "", "handleInputStream")
+	if f == nil {
+		return
+	}
+	g := f.Graph()
+	n := 0
+	for _, cl := range f.Calls("xmpp.Handler.HandleXMPP") {
+		cp, _ := g.Where(cl)
+		nrm := f.Norm(cl, &cp)
+		for _, ce := range g.EdgesMatching("!eq(" + nrm + ",nil)") {
+			from := g.EdgeTarget(ce.E)
+			for _, rs := range returnsFrom(f, from, nil) {
+				n++
+				rp, _ := g.Where(rs)
+				okr := true
+				why := ""
+				// which values can the returned error have here?
+				if len(rs.Results) == 1 {
+					v := g.LocalVar(rs.Results[0])
+					if v != nil {
+						for _, d := range g.ReachingDefs(v, rp) {
+							if d.RHS != nil && f.Norm(d.RHS, &d.At) == nrm || (d.Kind == eng.DefPlain && d.RHS != nil && containsNode(d.RHS, cl)) {
+								// the handler's own error can reach this return: every
+								// path on which it does (no other store into the variable
+								// in between) crosses the edge that excludes io.EOF
+								cut := eng.Cut{}
+								for _, pat := range []string{"!eq(" + nrm + ",var:io.EOF)", "!errors.Is(" + nrm + ",var:io.EOF)"} {
+									for _, e2 := range g.EdgesMatching(pat) {
+										cut[e2.E] = true
+									}
+								}
+								dd := d
+								redefined := func(q eng.Point, nd ast.Node) bool {
+									for _, o := range g.DefsAtNode(nd) {
+										if o.Var == v && o != dd {
+											return true
+										}
+									}
+									return false
+								}
+								if g.Reachable(g.After(d.At), rp, cut, redefined) {
+									okr, why = false, "the handler's error reaches this return without io.EOF having been excluded: Serve takes it for the end of the peer's stream and returns nil with the request unanswered"
+								}
+							}
+						}
+					}
+				}
+				c.r.Check(id, f, "handler error returned", "G: the handler's own error is returned as it is only where it is not io.EOF", rs.Pos(), okr, why)
+			}
+		}
+	}
+	c.r.Floor(id, "returns on the handler's failure path", n, 1)
+}
+
+// c07IDsComparedAsWritten (C07.22 / C05.27): a reply carries the id of the
+// request, byte for byte. The session looks at ids in three places - the
+// incoming element (getIDTyp), the reply detector and the stanza encoder's
+// "no id, generate one" step - and all three take the attribute value as it
+// is: a test for the missing id compares the value itself with "", never a
+// trimmed or folded copy (an id of one space is an id: the encoder must not
+// replace it by a random one after the detector has counted the reply).
+func c07IDsComparedAsWritten(c *cx, id string) {
+	n := 0
+	for _, name := range []string{"(*stanzaEncoder).EncodeToken", "(*responseChecker).EncodeToken", "getIDTyp"} {
+		f := c.fn(id, "", name)
+		if f == nil {
+			continue
+		}
+		f.WalkBody(func(nd ast.Node) bool {
+			be, ok := nd.(*ast.BinaryExpr)
+			if !ok || (be.Op != token.EQL && be.Op != token.NEQ) {
+				return true
+			}
+			var other ast.Expr
+			if s, ok := f.ConstStr(be.Y); ok && s == "" {
+				other = be.X
+			} else if s, ok := f.ConstStr(be.X); ok && s == "" {
+				other = be.Y
+			}
+			if other == nil {
+				return true
+			}
+			n++
+			_, isCall := ast.Unparen(other).(*ast.CallExpr)
+			if isCall && f.CalleeID(ast.Unparen(other).(*ast.CallExpr)) == "builtin.len" {
+				isCall = false
+			}
+			c.r.Check(id, f, "emptiness test", "P: attribute values are tested for emptiness as they were written", be.Pos(), !isCall, "tests "+f.Norm(other, nil)+": an id (or type) that differs from the empty string is treated as missing")
+			return true
+		})
+	}
+	c.r.Floor(id, "emptiness tests in the id handling of the session", n, 1)
 }
